@@ -16,6 +16,7 @@ import (
 	"io"
 	stdnet "net"
 	"os"
+	"strings"
 	"sync"
 	"testing"
 	"time"
@@ -153,6 +154,9 @@ type c24Run struct {
 	ConnNo int // n-th connection wrapped by the same wrapper instance
 	Seg    int
 	Small  bool
+	Kind   string   // "mixed", "long-lived" (cumulative traffic on one connection), "after-aborts" (healthy connection after failed handshakes on the same wrapper)
+	OneWay bool     // every Write goes A->B
+	Aborts []string `json:",omitempty"` // what happened to the aborted connections that preceded this one
 	Writes []c24Write
 	Tail   int // bytes readable after both sides closed (must be 0)
 	Fail   []string
@@ -216,7 +220,7 @@ func c24RunConn(r *verifRNG, run *c24Run, wrap c24Wrap, sizes []int, mode int) {
 	offs := [2]int{}
 	for i, sz := range sizes {
 		dir := 0
-		if r.intn(3) == 0 {
+		if !run.OneWay && r.intn(3) == 0 {
 			dir = 1
 		}
 		w, rd := ends[dir], ends[1-dir]
@@ -275,6 +279,45 @@ func c24RunConn(r *verifRNG, run *c24Run, wrap c24Wrap, sizes []int, mode int) {
 		}
 	}
 	_ = B.Close()
+}
+
+// c24Abort wraps one end of a fresh connection with wrap and lets the "handshake" fail in one of the ways a
+// real peer produces: it hangs up without sending, it stays silent until the read deadline, it speaks another
+// protocol, or it dies inside the stream header. The wrapped end is then closed (returning whatever the
+// wrapper pools). Returns a short description of what the wrapped end observed.
+func c24Abort(r *verifRNG, wrap c24Wrap, kind string) (desc string) {
+	a2b, b2a := newC24Half(), newC24Half()
+	rawA := &c24Conn{rx: b2a, tx: a2b}
+	rawB := &c24Conn{rx: a2b, tx: b2a}
+	defer func() {
+		if p := recover(); p != nil {
+			desc = fmt.Sprintf("%s: PANIC %v", kind, p)
+		}
+	}()
+	A, err := wrap(rawA)
+	if err != nil {
+		return fmt.Sprintf("%s: Wrap error %v", kind, err)
+	}
+	buf := make([]byte, 64)
+	switch kind {
+	case "peer-hangs-up":
+		_ = rawB.Close()
+		_ = A.SetReadDeadline(time.Now().Add(300 * time.Millisecond))
+	case "silent-until-deadline":
+		_ = A.SetReadDeadline(time.Now().Add(20 * time.Millisecond))
+	case "other-protocol":
+		_, _ = rawB.Write([]byte("HTTP/1.1 400 Bad Request\r\nConnection: close\r\n\r\n"))
+		_ = rawB.Close()
+		_ = A.SetReadDeadline(time.Now().Add(300 * time.Millisecond))
+	case "dies-in-header":
+		_, _ = rawB.Write([]byte{0x1f, 0x8b, 0x08}[:1+r.intn(3)])
+		_ = rawB.Close()
+		_ = A.SetReadDeadline(time.Now().Add(300 * time.Millisecond))
+	}
+	n, rerr := A.Read(buf)
+	cerr := A.Close()
+	_ = rawB.Close()
+	return fmt.Sprintf("%s: read n=%d err=%v close=%v", kind, n, rerr != nil, cerr != nil)
 }
 
 func TestVerifC24(t *testing.T) {
@@ -353,7 +396,75 @@ func TestVerifC24(t *testing.T) {
 					sizes = append(sizes, r.intn(4))
 				}
 			}
+			run.Kind = "mixed"
 			c24RunConn(r, &run, c.wrap, sizes, mode)
+			w.put(run)
+		}
+	}
+
+	// ---- long-lived connections: cumulative traffic in one direction far beyond every size/memory option of the
+	// wrapper (a pooled remoting connection lives for hours). zstd gets, besides the default, a wrapper configured
+	// with a small decoder memory budget so that "cumulative > budget" is reached quickly.
+	zsSmall, err := NewZstdConnWrapper(WithZstdDecoderMaxMemory(2<<20), WithZstdWindow(256<<10))
+	if err != nil {
+		t.Fatal(err)
+	}
+	long := []struct {
+		name   string
+		wrap   c24Wrap
+		mib    int // cumulative MiB, quick
+		mibT   int // thorough
+		chunkK int // KiB per Write
+	}{
+		{"none", codecs[0].wrap, 8, 80, 1024},
+		{"zstd", zs.Wrap, 72, 160, 1024},
+		{"zstd-mem2MiB", zsSmall.Wrap, 12, 80, 512},
+		{"gzip", gz.Wrap, 12, 80, 1024},
+		{"brotli-1", br1.Wrap, 12, 80, 1024},
+		{"brotli", br.Wrap, 6, 80, 512},
+	}
+	for _, c := range long {
+		mib := c.mib
+		if thorough {
+			mib = c.mibT
+		}
+		run := c24Run{I: idx, Codec: c.name, Kind: "long-lived", OneWay: true, Seg: 0}
+		idx++
+		var sizes []int
+		for tot := 0; tot < mib*1024; tot += c.chunkK {
+			sizes = append(sizes, c.chunkK*1024)
+		}
+		sizes = append(sizes, 1, 0, 4097) // and it still works for small writes afterwards
+		c24RunConn(r, &run, c.wrap, sizes, 2)
+		w.put(run)
+	}
+
+	// ---- failed handshakes interleaved with healthy connections on ONE wrapper instance: whatever an aborted
+	// connection leaves in the wrapper's pools must not poison the connections that come after it.
+	abortKinds := []string{"peer-hangs-up", "silent-until-deadline", "other-protocol", "dies-in-header"}
+	for _, c := range codecs[1:] {
+		rounds := 3
+		if thorough {
+			rounds = 8
+		}
+		for round := 0; round < rounds; round++ {
+			run := c24Run{I: idx, Codec: c.name, Kind: "after-aborts", ConnNo: round, Seg: []int{0, 7, 1}[round%3]}
+			idx++
+			// every kind of failure occurs for every codec within three rounds; sometimes twice in a row
+			na := 2 + r.intn(2)
+			for j := 0; j < na; j++ {
+				run.Aborts = append(run.Aborts, c24Abort(r, c.wrap, abortKinds[(round+j)%len(abortKinds)]))
+			}
+			var sizes []int
+			for i := 0; i < 6; i++ {
+				sizes = append(sizes, []int{1, 17, 300, 7200, 0, 65537}[r.intn(6)])
+			}
+			c24RunConn(r, &run, c.wrap, sizes, round%3)
+			for _, a := range run.Aborts {
+				if strings.Contains(a, "PANIC") {
+					run.Fail = append(run.Fail, "aborted connection: "+a)
+				}
+			}
 			w.put(run)
 		}
 	}
